@@ -31,6 +31,7 @@ type C13Case struct {
 	Style   spsim.XMLStyle  `json:"style"`
 	Tr      spsim.Transport `json:"transport"`
 	Defects []Defect        `json:"defects,omitempty"`
+	Noise   bool            `json:"noise,omitempty"`
 }
 
 var c13Defects = []Defect{
@@ -129,6 +130,7 @@ func genC13Case(t *rapid.T) C13Case {
 		}
 	}
 	c.Req = l
+	c.Noise = rapid.IntRange(0, 1).Draw(t, "noise") == 0
 	return c
 }
 
@@ -390,12 +392,22 @@ func TestC13(t *testing.T) {
 	col := ev.For("C13", "exploration", c13Rule)
 	col.Assume("the IdP and the harness read the same wall clock (3 s margin)")
 	searchRapid(t, col, genC13Case, func(c C13Case) []*ev.Violation {
-		w := mustBuild(c.Spec)
+		wspec := c.Spec
+		if c.Noise {
+			wspec = withNoise(wspec)
+		}
+		w := mustBuild(wspec)
+		if c.Noise {
+			runNoise(w, wspec)
+		}
 		now := time.Now()
 		hr := c13Render(c, now)
 		sent := evalLogoutSent(c.Spec, hr, now)
 		rep := obs.Do(w.Handler, hr)
 		vs, d, success := c13Oracle(c, hr, rep, sent)
+		if c.Noise && noiseLeak(rep) {
+			vs = append(vs, ev.V("C13/foreign-state-in-reply", "the reply carries data of an unrelated service provider / user that used the provider earlier"))
+		}
 		nslo := len(c.Spec.SPs[c.SP].SLO)
 		condViolated := false
 		for _, v := range sent.Violated {
